@@ -176,3 +176,42 @@ Theorem C13_code_realloc_multiple : forall a b, a < 2^64 -> b < 2^64 ->
   g_cbor_realloc_multiple (Z.of_N a) (Z.of_N b) = option_map Z.of_N (alloc_multiple_req 64 a b).
 Proof. exact bridge_realloc_multiple. Qed.
 Print Assumptions C13_code_alloc_multiple.
+
+(* ------------------------------------------------------------------------------------------ *)
+(* Which blocks cbor_decref hands to _cbor_free, and in which order, on the C source of this run
+   (gen/Gen_effects_ref.v, Bridge_effects_ref.v, HPlansRef_proofs.v): for every type the frees of the plan
+   are the TFreeData / TFreeItem tasks of the model's [release_tasks], in the same order — a definite
+   string frees its payload and then the item; an indefinite one its chunk array, its header block and
+   then the item; a tag its (NULL) data pointer and then the item. *)
+From Coq Require Import ZArith String List.
+From CB Require Import HPlans HPlansRef HPlansRef_proofs Bridge_effects_ref.
+From CBGen Require Import Gen_effects_ref.
+Import ListNotations.
+
+Theorem C13_code_decref_plans : forall cc definite e rc ty k nn_child nn_elem nn_value,
+  (rc < 2^64)%N -> (0 <= ty < 2^32)%Z ->
+  Gcbor_decref cc (dst_z definite) e (Z.of_N rc) ty k nn_child nn_elem nn_value = decref_plan rc ty definite nn_child.
+Proof. exact bridge_plan_decref. Qed.
+Print Assumptions C13_code_decref_plans.
+
+Theorem C13_release_string_follows_plan : forall a (text : bool) data bytes,
+  plan_tasks (tokens a data None None (fun _ _ => None)) (decref_plan 1 (if text then 3 else 2)%Z true false) =
+  release_tasks a (NStr text data bytes).
+Proof. exact release_string_follows_plan. Qed.
+
+Theorem C13_release_chunked_follows_plan : forall a (text : bool) hdr arr cap chunks,
+  let tok := tokens a (Some hdr) arr None (fun k _ => nth_error chunks (Z.to_nat k)) in
+  let tasks := release_tasks a (NChunked text hdr arr cap chunks) in
+  let i := if text then 1%nat else 0%nat in
+  plan_tasks tok (decref_chunks_round_plan i (len chunks) (len chunks)) = skipn (List.length chunks) tasks /\
+  skipn (List.length chunks) tasks = [TFreeData arr; TFreeData (Some hdr); TFreeItem a] /\
+  (forall k e, nth_error chunks (N.to_nat k) = Some e ->
+     plan_tasks tok (decref_chunks_round_plan i (len chunks) k) = [TDecref e]).
+Proof. exact release_chunked_follows_plan. Qed.
+
+Theorem C13_release_tag_follows_plan : forall a v child,
+  plan_tasks (tokens a None None child (fun _ _ => None))
+             (decref_plan 1 TY_TAG true (match child with Some _ => true | None => false end)) =
+  release_tasks a (NTag v child).
+Proof. exact release_tag_follows_plan. Qed.
+Print Assumptions C13_release_chunked_follows_plan.
